@@ -17,6 +17,7 @@ def dispatch (op : String) (args : List String) (impl : String) : Verdict :=
   | "dec" => opDec args impl
   | "disp" => opDisp args impl
   | "enc" => opEnc args impl
+  | "enci" => opEncIgnoring args impl
   | "merkle" => opMerkle args impl
   | "srv" => opSrv args impl
   | "sign" => opSign args impl
